@@ -82,7 +82,7 @@ bool ObjectOrArrayAction::TakeActionOn(JsonValue *value,
     }
 
     uint32_t index;
-    if (!StringToInt(key, &index)) {
+    if (!JsonPointer::TokenToIndex(key, &index)) {
       return false;
     }
     return ArrayIndex(array, index);
